@@ -40,6 +40,12 @@ def arbitrary(r, named_headers=False):
         recs.append([cell(r) for _ in range(max(1, min(6, w)))])
     if named_headers:
         hdr = [name(r, i) for i in range(width)]
+        if width >= 2 and r.random() < 0.25:
+            # two header names that differ only in capitalisation (each still names its own column)
+            i, j = sorted(r.sample(range(width), 2))
+            v = r.choice([hdr[i].upper(), hdr[i].lower(), hdr[i].swapcase()])
+            if v != hdr[i]:
+                hdr[j] = v
         if r.random() < 0.3:
             hdr = [(" " + h + " ") if r.random() < 0.5 else h for h in hdr]
         pos = 0
